@@ -1,10 +1,182 @@
 (* C15 -- A schedule's stream depends only on its own parameters
    Property theorems only: each proof is one application of a lemma proved in Proofs/, followed by Print Assumptions. *)
 From Coq Require Import ZArith List Bool.
-From CS Require MemoCoh SchedProofs.
+From CS Require MemoCoh SchedProofs GenLang GenBasic GenLang2 GenTwo GenLang3 GenMulti GenLang4 GenConv GenLang5 GenMixed SeqGenSpec HSeqGenSpec HoptGenSpec OptInfGenSpec Opt0GenSpec TabulGenSpec.
 From CS Require Import Actions NAdvance Multistage Exec Sched RunFacts Projections BasicInv MultistageRun AllocTotal TLBridge MixBridge.
 Import ListNotations.
 Open Scope Z_scope.
+
+(* THE STREAM IS A FUNCTION OF THE PARAMETERS AND THE REQUESTS: the generators, sequence generators, tables and planners below are re-translated from the source on every run (Gen/*.v) into pure Gallina terms -- no module-level or class-level state exists in them -- and proved to give the observations of the extracted model under every history; a source in which one object can influence another is outside the translated subset.  THE MODEL OF THE THREE BASIC CLASSES IS THE SOURCE: GenBasic.prog_of c is the program (deep-embedded generator language GenLang) that harness/translate.py produces from the _iterator method of NoneCheckpointSchedule / SingleMemoryStorageSchedule / SingleDiskStorageSchedule; Gen/BasicGen.v re-translates the current source on every run and proves it equal to that term by conversion.  Resuming that program request by request (GenLang.run = next() on the suspended generator; finalize = the base-class method on the attributes) from the freshly constructed object gives, under EVERY history of next() and finalize(k) calls, exactly the observations (outcome, n, r, max_n, is_exhausted) of the hand-written model Online.run_ops -- so the theorems of this file about these three classes, stated on the extracted model, are theorems about the translated source *)
+Module M_C15_basic_source_is_model.
+Import GenBasic.
+Theorem C15_basic_source_is_model :
+  forall (c : Online.kls) (ops : list Online.op) (s : Online.st),
+         basic c ->
+         Online.construct c = Actions.Ok s ->
+         grun_ops c [GenLang.FS (prog_of c)] (g_init c) ops = Online.run_ops s ops.
+Proof. exact (@GenBasic.basic_from_start). Qed.
+Print Assumptions C15_basic_source_is_model.
+End M_C15_basic_source_is_model.
+
+(* THE MODEL OF TwoLevelCheckpointSchedule IS THE SOURCE: GenTwo.two_prog_model is the program (generator language GenLang2: named locals, the snapshots stack, //, *, min, n_advance, assert, del) that harness/translate.py produces from TwoLevelCheckpointSchedule._iterator; Gen/TwoLevelGen.v re-translates the current source on every run and proves it equal to that term by conversion.  Resuming that program request by request from the freshly constructed object gives, for every period, unit count, storage and trajectory the constructor accepts and under EVERY history of next() and finalize(k) calls, exactly the observations (outcome, n, r, max_n, is_exhausted) of the hand-written machine Online.run_ops (class KTwo) -- so the TwoLevel theorems of this file, stated on the extracted model, are theorems about the translated source (n_advance itself is tied by Gen/NAdvanceGen.v) *)
+Module M_C15_twolevel_source_is_model.
+Import GenTwo.
+Theorem C15_twolevel_source_is_model :
+  forall (p bs : Z) (st : Actions.storage) (tr : NAdvance.traj) (ops : list Online.op) (s : Online.st),
+         Online.construct (Online.KTwo p bs st tr) = Actions.Ok s ->
+         grun_ops (cfg_of p bs st tr) [GenLang2.FS two_prog_model] g_init ops = Online.run_ops s ops.
+Proof. exact (@GenTwo.two_from_start). Qed.
+Print Assumptions C15_twolevel_source_is_model.
+End M_C15_twolevel_source_is_model.
+
+(* THE MODEL OF MultistageCheckpointSchedule IS THE SOURCE: GenMulti.multi_prog_model is the program (generator language GenLang3) that harness/translate.py produces from MultistageCheckpointSchedule._iterator, the nested helper write(n) inlined at its two call sites; Gen/MultistageGen.v re-translates the current source on every run and proves it equal to that term by conversion.  For every parameter tuple the constructor accepts, resuming that program request by request gives under EVERY history of next() and finalize(k) calls exactly the observations (outcome, n, r, max_n, is_exhausted) of the schedule object of Model/Sched.v (srun_ops: Sched.next / Sched.finalize on the Multistage machine) -- so the Multistage theorems of this file, stated on the extracted model, are theorems about the translated source.  (The unit total self._snapshots_in_ram + self._snapshots_on_disk is read as the length of the label tuple self._storage, which is what __init__ recounts them from; the allocation of the labels, allocate_snapshots, is tied by the correspondence.) *)
+Module M_C15_multistage_source_is_model.
+Import GenMulti.
+Theorem C15_multistage_source_is_model :
+  forall (n ram disk : Z) (tj : NAdvance.traj) (ops : list Online.op) (s : Sched.sched),
+         Sched.construct (Sched.PMulti n ram disk tj) = Actions.Ok s ->
+         exists c : Multistage.cfg,
+           Multistage.construct n ram disk tj = Actions.Ok c /\
+           grun_ops (cfg3 c) [GenLang3.FS multi_prog_model] (g_init n) ops = srun_ops s ops.
+Proof. exact (@GenMulti.multi_from_start). Qed.
+Print Assumptions C15_multistage_source_is_model.
+End M_C15_multistage_source_is_model.
+
+(* THE CONVERTER OF THE FOUR REVOLVE-FAMILY CLASSES IS THE SOURCE: GenConv.conv_prog_model is the program (generator language GenLang4: the operation list with Python indexing, _convert_action, integer / boolean / storage / type-name locals, the set snapshots) that harness/translate.py produces from RevolveCheckpointSchedule._iterator; Gen/ConverterGen.v re-translates the current source on every run and proves it equal to that term by conversion (and Gen/ConvertGen.v does the same for _convert_action).  For Revolve, DiskRevolve, PeriodicDiskRevolve and HRevolve alike, every accepted parameter tuple and every history of next() and finalize(k) calls: as long as the hand-written machine (RevConv.next on the operation list of the class) does not raise, resuming the translated program gives exactly its observations (outcome, n, r, max_n, is_exhausted) -- raise_free is what the run theorems of this file establish for the four classes; after an exception the two may differ in n (the hand-written machine reports the error before it commits the updates of that iteration).  The operation list itself (the sequence generators) is tied by the correspondence *)
+Module M_C15_revolve_family_converter_is_source.
+Import GenConv.
+Theorem C15_revolve_family_converter_is_source :
+  forall (k : RevConv.rkind) (n ram disk uf ub wd rd : Z) (hist : list Online.op) (s : Sched.sched),
+         Sched.construct (Sched.PRev k n ram disk uf ub wd rd) = Actions.Ok s ->
+         raise_free (srun_ops s hist) ->
+         exists opl : list Ops.op,
+           RevConv.sequence k n ram disk uf ub wd rd = Actions.Ok opl /\
+           grun_ops opl [GenLang4.FS conv_prog_model] (g_init n) hist = srun_ops s hist.
+Proof. exact (@GenConv.conv_from_start). Qed.
+Print Assumptions C15_revolve_family_converter_is_source.
+End M_C15_revolve_family_converter_is_source.
+
+(* THE MODEL OF MixedCheckpointSchedule IS THE SOURCE: GenMixed.mixed_prog_model is the program (generator language GenLang5: the stack snapshots of (step type, n0, n1) triples, the set snapshot_n, the planner read as a function, step-type / integer / boolean locals, break) that harness/translate.py produces from MixedCheckpointSchedule._iterator; Gen/MixedGen.v re-translates the current source on every run and proves it equal to that term by conversion.  For every planner the constructor can select (the table of mixed_steps_tabulation or mixed_step_memoization behind its cache) and under EVERY history of next() and finalize(k) calls, resuming that program request by request from the freshly constructed object gives exactly the observations (outcome, n, r, max_n, is_exhausted) of the schedule object of Model/Sched.v (hand-written machine Mixed.resume) -- up to the first exception the latter raises (raise_free: none on the documented domain, by the Mixed run theorems of this file); the invariant carried through is that the set snapshot_n holds exactly the distinct first components of the stack (GenMixed.sinv), which is why the model needs no set *)
+Module M_C15_mixed_source_is_model.
+Import GenMixed.
+Theorem C15_mixed_source_is_model :
+  forall (n s : Z) (sg : Actions.storage) (tab : bool) (hist : list Online.op) (sch : Sched.sched),
+         Sched.construct (Sched.PMixed n s sg tab) = Actions.Ok sch ->
+         GenConv.raise_free (GenMulti.srun_ops sch hist) ->
+         exists s' : Z,
+           Mixed.construct n s sg = Actions.Ok s' /\
+           (forall f : Z -> Z -> Actions.res Mixed.plan_t,
+            planner n s' tab = Actions.Ok f ->
+            grun_ops (mcfg n s' sg f) [GenLang5.FS mixed_prog_model] (g_init n) hist =
+            GenMulti.srun_ops sch hist).
+Proof. exact (@GenMixed.mixed_from_start). Qed.
+Print Assumptions C15_mixed_source_is_model.
+End M_C15_mixed_source_is_model.
+
+(* THE SEQUENCE GENERATORS ARE THE SOURCE: SeqGenSpec.revolve_shape / disk_revolve_shape / periodic_shape are the Gallina functions harness/translate.py (SeqTr) renders from revolve(), disk_revolve() and periodic_disk_revolve() of hrevolve_sequences/ -- every sequence.insert(operation(..)) appends one operation, insert_sequence(f(..).shift(k)) a recursively built list, the loops become for_down / while_, reads of the tables tget / lget with IndexError; Gen/SeqGen.v re-translates the current source on every run and proves the result equal to these terms by conversion.  They are proved equal, for all arguments, to the extracted RevSeq.revolve / RevSeq.disk_revolve / the body of RevSeq.periodic_top, on which every theorem about the Revolve family is stated; this is the top-level call of the constructor (RevConv.sequence) read on the translated source.  Not translated: the tables (get_opt_0_table, get_opt_inf_table), mxrr_close_formula and the Sequence / Operation classes of basic_functions.py (their flattening, shift and remove_useless_wm are Ops.v) *)
+Module M_C15_revolve_sequence_is_source.
+Import SeqGenSpec.
+Theorem C15_revolve_sequence_is_source :
+  forall l cm uf ub : Z,
+         RevSeq.revolve_top l cm uf ub =
+         Actions.bind (RevSeq.get_opt_0_table l cm uf ub)
+           (fun t : list (list Z) => revolve_shape (Z.to_nat (2 * l + 4)) t uf l cm).
+Proof. exact (@SeqGenSpec.revolve_top_is_source). Qed.
+Print Assumptions C15_revolve_sequence_is_source.
+End M_C15_revolve_sequence_is_source.
+
+(* ... DiskRevolve *)
+Module M_C15_disk_revolve_sequence_is_source.
+Import SeqGenSpec.
+Theorem C15_disk_revolve_sequence_is_source :
+  forall l cm rd wd uf ub : Z,
+         RevSeq.disk_revolve_top l cm rd wd uf ub =
+         Actions.bind (RevSeq.get_opt_0_table l cm uf ub)
+           (fun t : list (list Z) =>
+            Actions.bind (RevSeq.get_opt_inf_table l cm uf ub rd wd t)
+              (fun ti : list Z => disk_revolve_shape (Z.to_nat (l + 2)) t ti uf rd wd l cm)).
+Proof. exact (@SeqGenSpec.disk_revolve_top_is_source). Qed.
+Print Assumptions C15_disk_revolve_sequence_is_source.
+End M_C15_disk_revolve_sequence_is_source.
+
+(* ... PeriodicDiskRevolve (the period is at least 1: PeriodGen.mxrr_pos) *)
+Module M_C15_periodic_sequence_is_source.
+Import SeqGenSpec.
+Theorem C15_periodic_sequence_is_source :
+  forall l cm rd wd uf ub : Z,
+         0 <= l ->
+         RevSeq.periodic_top l cm rd wd uf ub =
+         (let mx := RevSeq.mxrr cm uf rd wd in
+          Actions.bind (RevSeq.get_opt_0_table (Z.max mx mx + 1) cm uf ub)
+            (fun t : list (list Z) =>
+             Actions.bind (periodic_shape t uf mx l cm) (fun o : list Ops.op => Actions.Ok (o, mx)))).
+Proof. exact (@SeqGenSpec.periodic_top_is_source). Qed.
+Print Assumptions C15_periodic_sequence_is_source.
+End M_C15_periodic_sequence_is_source.
+
+(* ... HRevolve: hrevolve_aux / hrevolve_recurse (mutually recursive; costs integers or +infinity) rendered by the translator (Gen/HSeqGen.v), proved equal to HRevSeq.aux / HRevSeq.recurse for every chain length l >= 0, with the test `the sequence built so far ends in a Discard` read as is_discard (last_op ..) *)
+Module M_C15_hrevolve_sequence_is_source.
+Import HSeqGenSpec.
+Theorem C15_hrevolve_sequence_is_source :
+  forall l ram disk wd rd uf ub : Z,
+         0 <= l ->
+         HRevSeq.hrevolve l ram disk wd rd uf ub =
+         (let p :=
+            {|
+              HRevSeq.c0v := ram;
+              HRevSeq.c1v := disk;
+              HRevSeq.w0v := 0;
+              HRevSeq.w1v := wd;
+              HRevSeq.r0v := 0;
+              HRevSeq.r1v := rd;
+              HRevSeq.ufv := uf;
+              HRevSeq.ubv := ub
+            |} in
+          Actions.bind (HRevSeq.get_hopt_table l ram disk 0 wd 0 rd ub uf)
+            (fun T : HRevSeq.tabs => recurse_shape (Z.to_nat (4 * l + 8)) p T l 1 disk)).
+Proof. exact (@HSeqGenSpec.hrevolve_is_source). Qed.
+Print Assumptions C15_hrevolve_sequence_is_source.
+End M_C15_hrevolve_sequence_is_source.
+
+(* ... and the cost tables of H-Revolve: get_hopt_table rendered by the translator for two storage levels (Gen/HoptGen.v: assignments into opt[k][l][m] / optp[k][l][m] are hset, reads hget, float(inf) is Inf, l * (l + 1) / 2 exact division), proved equal to HRevSeq.get_hopt_table for all arguments *)
+Module M_C15_hopt_table_is_source.
+Import HoptGenSpec.
+Theorem C15_hopt_table_is_source :
+  forall lmax c0 c1 w0 w1 r0 r1 ub uf : Z,
+         hopt_shape lmax c0 c1 w0 w1 r0 r1 ub uf = HRevSeq.get_hopt_table lmax c0 c1 w0 w1 r0 r1 ub uf.
+Proof. exact (@HoptGenSpec.hopt_shape_is_model). Qed.
+Print Assumptions C15_hopt_table_is_source.
+End M_C15_hopt_table_is_source.
+
+(* ... and the Disk-Revolve table: get_opt_inf_table (one_read_disk = True) rendered by the translator (Gen/OptInfGen.v: the Table is a list that only grows by append), proved equal to RevSeq.get_opt_inf_table for all arguments *)
+Module M_C15_optinf_table_is_source.
+Import OptInfGenSpec.
+Theorem C15_optinf_table_is_source :
+  forall (lmax cm uf ub rd wd : Z) (opt_0 : list (list Z)),
+         optinf_shape lmax cm uf ub rd wd opt_0 = RevSeq.get_opt_inf_table lmax cm uf ub rd wd opt_0.
+Proof. exact (@OptInfGenSpec.optinf_shape_is_model). Qed.
+Print Assumptions C15_optinf_table_is_source.
+End M_C15_optinf_table_is_source.
+
+(* ... and the Revolve table: get_opt_0_table rendered by the translator (Gen/Opt0Gen.v: a list of rows that only grow by append), proved equal to RevSeq.get_opt_0_table for every slot count mmax >= 0 *)
+Module M_C15_opt0_table_is_source.
+Import Opt0GenSpec.
+Theorem C15_opt0_table_is_source :
+  forall lmax mmax uf ub : Z,
+         0 <= mmax -> opt0_shape lmax mmax uf ub = RevSeq.get_opt_0_table lmax mmax uf ub.
+Proof. exact (@Opt0GenSpec.opt0_shape_is_model). Qed.
+Print Assumptions C15_opt0_table_is_source.
+End M_C15_opt0_table_is_source.
+
+(* the tabulated planner of Mixed (Gen/TabulGen.v) *)
+Module M_C15_tabulation_is_source.
+Import TabulGenSpec.
+Theorem C15_tabulation_is_source :
+  forall (n s : Z) (t : Mixed.table),
+         1 <= n -> tabul_shape n s = Actions.Ok t <-> Mixed.tabulate n s = Actions.Ok t.
+Proof. exact (@TabulGenSpec.tabul_shape_is_model). Qed.
+Print Assumptions C15_tabulation_is_source.
+End M_C15_tabulation_is_source.
 
 (* the memoised planner as the extracted iterator uses it (cache warmed by an arbitrary earlier call) returns the canonical plan for every sub-problem *)
 Module M_C15_memo_warm_planC.
